@@ -273,6 +273,20 @@ class IoSim(Engine):
             elif kind == 'duck_binary':
                 src = simio.DuckSource(data, chunks, st_,
                                        fault['at'] if fault else None)
+            elif kind in ('textio_after_next', 'stringio_after_readline', 'buffered_after_readline'):
+                # the caller skipped a header line (by iteration / readline) and hands the
+                # rest of the open stream to the load function
+                header = '# header skipped by the caller\n'
+                hdata = header.encode('utf-8') + data
+                if kind == 'textio_after_next':
+                    src = simio.raw_stack(hdata, rawplan, st_, 'text', knobs)
+                    next(src)
+                elif kind == 'stringio_after_readline':
+                    src = io.StringIO(header + doc)
+                    src.readline()
+                else:
+                    src = simio.raw_stack(hdata, rawplan, st_, 'binary', knobs)
+                    src.readline()
             elif kind == 'realfile_text':
                 p = os.path.join(mount.dir, '..', os.path.basename(mount.dir) + '.real.yaml')
                 with simio._real_open(p, 'wb') as f:
@@ -295,7 +309,12 @@ class IoSim(Engine):
             return out
 
         # --- fault-free configuration: kinds x chunk schedules
-        for kind in ('path', 'stringio', 'bytesio', 'realfile_text', 'realfile_binary'):
+        kinds0 = ['path', 'stringio', 'bytesio', 'realfile_text', 'realfile_binary']
+        if '\r' not in doc and not doc.startswith('\ufeff'):
+            # (after a header line a BOM is no longer at the start, and text-mode newline
+            # translation of the header would change what "the rest" is)
+            kinds0 += ['textio_after_next', 'stringio_after_readline', 'buffered_after_readline']
+        for kind in kinds0:
             out = load_kind(kind)
             check(kind, out, 'whole', 'whole')
             if kind == 'path' and not out['io'].opened:
